@@ -196,6 +196,17 @@ impl Entry {
     }
 
     pub(crate) fn equiv(&self, entry: &Entry) -> bool {
+        // Two entries with the same values but different paddings have different byte
+        // layouts (e.g. `(1u8, 1u8)`, whose fields are padded to words, and `[1u8, 1u8]`,
+        // whose elements are not) and must not be merged.
+        fn equiv_padding(lhs: &Padding, rhs: &Padding) -> bool {
+            match (lhs, rhs) {
+                (Padding::Left { target_size: l }, Padding::Left { target_size: r })
+                | (Padding::Right { target_size: l }, Padding::Right { target_size: r }) => l == r,
+                _ => false,
+            }
+        }
+
         fn equiv_data(lhs: &Datum, rhs: &Datum) -> bool {
             match (lhs, rhs) {
                 (Datum::Byte(l), Datum::Byte(r)) => l == r,
@@ -203,9 +214,9 @@ impl Entry {
                 (Datum::ByteArray(l), Datum::ByteArray(r)) => l == r,
                 (Datum::Collection(l), Datum::Collection(r)) => {
                     l.len() == r.len()
-                        && l.iter()
-                            .zip(r.iter())
-                            .all(|(l, r)| equiv_data(&l.value, &r.value))
+                        && l.iter().zip(r.iter()).all(|(l, r)| {
+                            equiv_padding(&l.padding, &r.padding) && equiv_data(&l.value, &r.value)
+                        })
                 }
                 _ => false,
             }
@@ -215,7 +226,9 @@ impl Entry {
         // available (i.e. `Some(..)`) and they must be the same before we can merge the two
         // entries. Otherwise, `self.name` and `entry.name` will be `None` in which case we're also
         // allowed to merge the two entries (if their values are equivalent of course).
-        equiv_data(&self.value, &entry.value) && self.name == entry.name
+        equiv_padding(&self.padding, &entry.padding)
+            && equiv_data(&self.value, &entry.value)
+            && self.name == entry.name
     }
 }
 
